@@ -68,7 +68,90 @@ def rr(name, ty, cl, ttl, rd):
     return name + u16(ty) + u16(cl) + u32(ttl) + u16(len(rd)) + rd
 
 
+def boundary_owner(rng):
+    """owners at the limits of 'the first label sequence': 253..256 octets with the terminator, ended by the root
+    label or by a pointer, a bare pointer, a pointer whose second octet is the last one available, reserved
+    label types 0x40 / 0x80, a 63 / 64-octet label"""
+    def seq(total):                      # labels filling `total` octets (without the terminator)
+        out, left = [], total
+        while left > 0:
+            l = min(63, left - 1)
+            if l <= 0:
+                out += [1, 0x61]; left -= 2
+                continue
+            out += [l] + [0x61] * l
+            left -= l + 1
+        return out
+    r = rng.randrange(9)
+    if r == 0:
+        return seq(rng.choice([252, 253, 254, 255])) + [0]
+    if r == 1:
+        return seq(rng.choice([252, 253, 254, 255])) + [0xC0, 12]
+    if r == 2:
+        return [0xC0, rng.choice([0, 12, 0xFF])]
+    if r == 3:
+        return [rng.choice([0x40, 0x80, 0xBF]), 1, 2]
+    if r == 4:
+        return [63] + [0x62] * 63 + [0]
+    if r == 5:
+        return [64] + [0x62] * 64 + [0]
+    if r == 6:
+        return [1, 0x61, rng.choice([0xC0, 0xFF])]          # pointer cut in the middle (if last in the message)
+    if r == 7:
+        return enc_name([b"A" * 10, b"b"])
+    return [0]
+
+
+def bad_opt_rdata(rng):
+    """OPT RDATA whose options do not tile it (or just do): overrunning length, 1..3 stray octets, zero-length options"""
+    r = rng.randrange(5)
+    if r == 0:
+        return u16(10) + u16(5) + [1, 2, 3, 4]               # length overruns by one
+    if r == 1:
+        return u16(10) + u16(4) + [1, 2, 3, 4] + [9] * rng.randint(1, 3)
+    if r == 2:
+        return u16(8) + u16(0) + u16(9) + u16(0)             # two empty options: fine
+    if r == 3:
+        return u16(8) + u16(0xFFFF) + [0] * 8
+    return u16(3) + u16(2) + [7, 7]                          # fine
+
+
+def bad_tsig_rdata(rng):
+    """TSIG RDATA with exactly one layout defect (or none): algorithm name compressed / too long / cut, MAC size or
+    other-len off by one, missing tail fields, trailing octet"""
+    alg = enc_name([b"hmac-sha256"])
+    mac = [rng.randrange(256) for _ in range(rng.choice([0, 16, 32]))]
+    t = [0, 0, 0x65, 0x53, 0xF1, 0]
+    other = rng.choice([[], [1, 2, 3, 4, 5, 6]])
+    def build(alg=alg, macsz=len(mac), mac=mac, otherlen=len(other), other=other):
+        return alg + t + u16(300) + u16(macsz) + mac + u16(0x1234) + u16(0) + u16(otherlen) + other
+    r = rng.randrange(10)
+    if r == 0:
+        return build(macsz=len(mac) + 1)
+    if r == 1:
+        return build(otherlen=len(other) + 1)
+    if r == 2:
+        return build(otherlen=max(0, len(other) - 1)) if other else build() + [0]
+    if r == 3:
+        return build(alg=[0xC0, 12])
+    if r == 4:
+        return build(alg=[64] + [0x61] * 64 + [0])
+    if r == 5:
+        return build(alg=[4, 0x68, 0x6D, 0x61, 0x63])       # name without terminator
+    if r == 6:
+        return build()[:len(alg) + rng.choice([0, 5, 9, 10])]
+    if r == 7:
+        return build(alg=[0])                                # root algorithm name: layout fine
+    if r == 8:
+        return build(alg=[63] + [0x61] * 63 + [63] + [0x62] * 63 + [63] + [0x63] * 63 + [rng.choice([61, 62])] + [0x64] * 62 + [0])
+    return build()
+
+
 def gen_opt(rng):
+    if rng.random() < 0.08:
+        return rr(boundary_owner(rng), 41, 1232, 0, [])
+    if rng.random() < 0.08:
+        return rr(enc_name([]), 41, 1232, rng.choice([0, 0x00010000]), bad_opt_rdata(rng))
     owner = enc_name([]) if rng.random() < 0.85 else enc_name([b"x"])
     ver = rng.choice([0, 0, 0, 0, 1, 2, 255, rng.randrange(256)])
     top = rng.choice([0, 0, 0, 0x80, rng.randrange(256)])
@@ -79,6 +162,9 @@ def gen_opt(rng):
 
 
 def gen_tsig(rng):
+    if rng.random() < 0.12:
+        owner = enc_name([b"k"]) if rng.random() < 0.7 else boundary_owner(rng)
+        return rr(owner, 250, 255, 0, bad_tsig_rdata(rng))
     long = [b"x" * 63, b"y" * 63, b"z" * 63, b"w" * 61]
     key = rng.choice([[b"k"], [b"k"], [b"key", b"example"], [b"unknown"], long, [b"K"]])
     alg = rng.choice([[b"hmac-sha256"], [b"hmac-sha1"], [b"HMAC-SHA256"], [b"hmac-md5", b"sig-alg", b"reg", b"int"],
@@ -95,6 +181,8 @@ def gen_tsig(rng):
 
 
 def gen_plain_rr(rng):
+    if rng.random() < 0.06:
+        return rr(boundary_owner(rng), rng.choice([1, 99]), 1, 60, [1, 2, 3, 4])
     ty = rng.choice([1, 28, 10, 99, 65280])
     cl = rng.choice([1, 1, 3, 255])
     return rr(enc_name(dnsgen.rand_labels(rng, 2)), ty, cl, rng.choice([0, 60, 0x80000001]), dnsgen.lite_rdata(rng, ty, cl))
